@@ -217,6 +217,8 @@ def generate(prop, seed, tier="quick", fault_free=False):
                       "hash_early": (not fault_free) and w.random() < 0.35,
                       # callable mode: constants are captured module globals, not literals
                       "lift": w.random() < 0.5}
+                if op["mode"] == "callable" and not fault_free and w.random() < 0.5:
+                    op["slot"] = w.randrange(2)  # a real file, rewritten by later builds
                 if not fault_free:
                     if f.random() < 0.25:
                         op["clock_jump"] = f.choice([1.0, 86400.0, 3.0e8])
@@ -317,6 +319,8 @@ def execute(case):
             stat("builds")
             if b.get("hash_early"):
                 stat("fault_hashed_earlier_in_process")
+            if b.get("slot") is not None and b.get("mode") == "callable":
+                stat("fault_source_file_rewritten_and_reloaded")
             rv = r.get("received")
             if rv is not None:
                 # the AST the executor received is one more build of whatever structure it has
@@ -428,7 +432,7 @@ def _brief(b):
 def op_simplifications(op):
     out = []
     for k in ("clock_jump", "annotate", "relocate", "qmd", "exec_before", "want_pickle", "post",
-              "hash_early", "lift"):
+              "hash_early", "lift", "slot"):
         if op.get(k):
             o = dict(op)
             o[k] = None if k in ("post", "clock_jump") else False
